@@ -82,3 +82,20 @@ def deadline(seconds):
     finally:
         signal.setitimer(signal.ITIMER_REAL, 0)
         signal.signal(signal.SIGALRM, old)
+
+
+def keep_going(res, spec, frac=1.0):
+    '''time-budgeted loops: run for the budget; on a loaded machine keep going (up to
+    `stretch` x budget) until this shard has produced its share of the deciding counters'''
+    e = res.elapsed()
+    if e < spec['budget'] * frac:
+        return True
+    if e > spec['budget'] * spec.get('stretch', 5.0):
+        return False
+    for k, v in (spec.get('min') or {}).items():
+        have = res.counters.get(k)
+        if have is None:
+            have = len(res.distinct.get(k, ())) if k in res.distinct else None
+        if have is not None and have < v:
+            return True
+    return False
